@@ -20,6 +20,9 @@ MPS_DEFS = {
     'mpsc': [dict(pid='r1', stream='bbb', start_s=6, duration_s=10, tracks=[('video', 1, 'MAIN'), ('audio', 2, 'MAIN')]),
              dict(pid='r2', stream='bbb', start_s=21, duration_s=15, tracks=[('video', 1, 'MAIN')]),
              dict(pid='r3', stream='tears', start_s=33, duration_s=23, tracks=[('video', 1, 'MAIN'), ('audio', 2, 'MAIN')])],
+    # a period over a stream whose text track is stored without tfdt boxes and with fragments of unequal duration
+    'mpsv': [dict(pid='v1', stream='vtt', start_s=10, duration_s=24, tracks=[('video', 1, 'MAIN'), ('text', 4, 'MAIN')]),
+             dict(pid='v2', stream='bbb', start_s=0, duration_s=12, tracks=[('video', 1, 'MAIN')])],
 }
 
 
@@ -41,6 +44,9 @@ def main(tier_: str) -> int:
         tlc_must_pass(ra, 'MultiPeriodMC (A)')
         lines: list[dict[str, Any]] = []
         with DashApp(d / 'app', fixtures=('bbb', 'tears')) as da:
+            from harness.core import REPO
+            da.add_fixture('bbb', directory='vtt', title='stored without tfdt', only={'bbb_v7', 'bbb_a1'},
+                           extra=[(REPO / 'tests' / 'fixtures' / 'webvtt.mp4', 'vtt_t2')])
             for name, periods in MPS_DEFS.items():
                 da.add_mps(name=name, title=f'MPS {name}', periods=periods)
             drv = HttpDriver(da)
